@@ -510,6 +510,33 @@ def startF (env funcs : Env) : ShF := { sh := clean env, funcs := funcs }
 environment, functions, lines echoed, exit status; `none` = outside the fragment -/
 def shEvalF (env funcs : Env) (text : Str) : Option ShF := (feedF (startF env funcs) text).bind finishF
 
+/-! ## csh: how a word of the emitted text is read (from the manual; no csh binary is installed)
+
+A word is a run of ordinary characters or a single-quoted string.  Inside single quotes every character is literal,
+there is no way to write a quote, and an unescaped newline ends the command (`Unmatched '`): `none`. -/
+
+/-- the value csh takes from the word after `setenv NAME ` -/
+def cshWord (w : Str) : Option Str :=
+  match w with
+  | [] => some []
+  | 39 :: r =>
+    match r.reverse with
+    | 39 :: innerRev =>
+      let inner := innerRev.reverse
+      if inner.all (fun c => c != 39 && c != 10 && c != 33) then some inner else none
+    | _ => none
+  | _ => if w.all isSafe then some w else none
+
+/-- one command of the csh dialect applied to the environment: `setenv NAME WORD` / `unsetenv NAME`; aliases leave it
+alone; `none` = csh would not read the command as intended -/
+def cshApply (env : Env) : Cmd → Option Env
+  | .setVar k v => if isIdent k then (cshWord (emitVal v)).map fun x => env.set k x else none
+  | .unsetVar k => if isIdent k then some (env.unset k) else none
+  | .aliasDef _ _ => some env
+  | .aliasDel _ => some env
+
+def cshApplyAll (cmds : List Cmd) (env : Env) : Option Env := cmds.foldlM cshApply env
+
 /-! ## the command line: `setupcmd.EupsSetup.run` / `execute` and the wrapper `bin/eups_setup`
 
 What reaches the caller's shell is the standard output of `eups_setup` (evaluated) — the exit status of the Python
